@@ -1,59 +1,2 @@
-(* GENERATED by translator/gen.py from src/config.rs, src/version/cache.rs - do not edit *)
-From VL Require Import Lib.Bytes Lib.Reg.
-
-From Coq Require Import ZArith.
-Definition default_refresh_interval_ms : Z := 86400000%Z.
-Definition fetch_timeout_ms : Z := 30000%Z.
-Definition fetch_stagger_delay_ms : Z := 10%Z.
-
-Definition migrations : list (list bytes) :=
-  [ [[65;76;84;69;82;32;84;65;66;76;69;32;112;97;99;107;97;103;101;115;32;65;68;68;32;67;79;76;85;77;78;32;102;101;116;99;104;105;110;103;95;115;105;110;99;101;32;73;78;84;69;71;69;82]] (* ALTER TABLE packages ADD COLUMN fetching_since INTEGER *);
-    [[65;76;84;69;82;32;84;65;66;76;69;32;112;97;99;107;97;103;101;115;32;65;68;68;32;67;79;76;85;77;78;32;110;111;116;95;102;111;117;110;100;32;73;78;84;69;71;69;82;32;78;79;84;32;78;85;76;76;32;68;69;70;65;85;76;84;32;48]] (* ALTER TABLE packages ADD COLUMN not_found INTEGER NOT NULL DEFAULT 0 *) ].
-
-(* every SQL / pragma literal of cache.rs: (function, position, whitespace-normalised text) *)
-Definition sql_pins : list (bytes * N * bytes) :=
-  [ ([110;101;119], 0, [106;111;117;114;110;97;108;95;109;111;100;101]) (* new#0: journal_mode *);
-    ([110;101;119], 1, [87;65;76]) (* new#1: WAL *);
-    ([110;101;119], 2, [115;121;110;99;104;114;111;110;111;117;115]) (* new#2: synchronous *);
-    ([110;101;119], 3, [78;79;82;77;65;76]) (* new#3: NORMAL *);
-    ([99;114;101;97;116;101;95;115;99;104;101;109;97], 0, [67;82;69;65;84;69;32;84;65;66;76;69;32;73;70;32;78;79;84;32;69;88;73;83;84;83;32;112;97;99;107;97;103;101;115;32;40;32;105;100;32;73;78;84;69;71;69;82;32;80;82;73;77;65;82;89;32;75;69;89;32;65;85;84;79;73;78;67;82;69;77;69;78;84;44;32;114;101;103;105;115;116;114;121;95;116;121;112;101;32;84;69;88;84;32;78;79;84;32;78;85;76;76;44;32;112;97;99;107;97;103;101;95;110;97;109;101;32;84;69;88;84;32;78;79;84;32;78;85;76;76;44;32;117;112;100;97;116;101;100;95;97;116;32;73;78;84;69;71;69;82;32;78;79;84;32;78;85;76;76;44;32;85;78;73;81;85;69;40;114;101;103;105;115;116;114;121;95;116;121;112;101;44;32;112;97;99;107;97;103;101;95;110;97;109;101;41;32;41]) (* create_schema#0: CREATE TABLE IF NOT EXISTS packages ( id INTEGER PRIMARY KEY AUTOINCREMENT, registry_type TEXT NOT NULL, package_name TEXT NOT NULL, updated_at INTEGER NOT NULL, UNIQUE(registry_type, package_name) ) *);
-    ([99;114;101;97;116;101;95;115;99;104;101;109;97], 1, [67;82;69;65;84;69;32;73;78;68;69;88;32;73;70;32;78;79;84;32;69;88;73;83;84;83;32;105;100;120;95;117;112;100;97;116;101;100;95;97;116;32;79;78;32;112;97;99;107;97;103;101;115;40;117;112;100;97;116;101;100;95;97;116;41]) (* create_schema#1: CREATE INDEX IF NOT EXISTS idx_updated_at ON packages(updated_at) *);
-    ([99;114;101;97;116;101;95;115;99;104;101;109;97], 2, [67;82;69;65;84;69;32;84;65;66;76;69;32;73;70;32;78;79;84;32;69;88;73;83;84;83;32;118;101;114;115;105;111;110;115;32;40;32;105;100;32;73;78;84;69;71;69;82;32;80;82;73;77;65;82;89;32;75;69;89;32;65;85;84;79;73;78;67;82;69;77;69;78;84;44;32;112;97;99;107;97;103;101;95;105;100;32;73;78;84;69;71;69;82;32;78;79;84;32;78;85;76;76;44;32;118;101;114;115;105;111;110;32;84;69;88;84;32;78;79;84;32;78;85;76;76;44;32;70;79;82;69;73;71;78;32;75;69;89;32;40;112;97;99;107;97;103;101;95;105;100;41;32;82;69;70;69;82;69;78;67;69;83;32;112;97;99;107;97;103;101;115;40;105;100;41;32;79;78;32;68;69;76;69;84;69;32;67;65;83;67;65;68;69;44;32;85;78;73;81;85;69;40;112;97;99;107;97;103;101;95;105;100;44;32;118;101;114;115;105;111;110;41;32;41]) (* create_schema#2: CREATE TABLE IF NOT EXISTS versions ( id INTEGER PRIMARY KEY AUTOINCREMENT, package_id INTEGER NOT NULL, version TEXT NOT NULL, FOREIGN KEY (package_id) REFERENCES packages(id) ON DELETE CASCADE, UNIQUE(package_id, version) ) *);
-    ([99;114;101;97;116;101;95;115;99;104;101;109;97], 3, [67;82;69;65;84;69;32;73;78;68;69;88;32;73;70;32;78;79;84;32;69;88;73;83;84;83;32;105;100;120;95;112;97;99;107;97;103;101;95;105;100;32;79;78;32;118;101;114;115;105;111;110;115;40;112;97;99;107;97;103;101;95;105;100;41]) (* create_schema#3: CREATE INDEX IF NOT EXISTS idx_package_id ON versions(package_id) *);
-    ([99;114;101;97;116;101;95;115;99;104;101;109;97], 4, [67;82;69;65;84;69;32;84;65;66;76;69;32;73;70;32;78;79;84;32;69;88;73;83;84;83;32;100;105;115;116;95;116;97;103;115;32;40;32;105;100;32;73;78;84;69;71;69;82;32;80;82;73;77;65;82;89;32;75;69;89;32;65;85;84;79;73;78;67;82;69;77;69;78;84;44;32;112;97;99;107;97;103;101;95;105;100;32;73;78;84;69;71;69;82;32;78;79;84;32;78;85;76;76;44;32;116;97;103;95;110;97;109;101;32;84;69;88;84;32;78;79;84;32;78;85;76;76;44;32;118;101;114;115;105;111;110;32;84;69;88;84;32;78;79;84;32;78;85;76;76;44;32;70;79;82;69;73;71;78;32;75;69;89;32;40;112;97;99;107;97;103;101;95;105;100;41;32;82;69;70;69;82;69;78;67;69;83;32;112;97;99;107;97;103;101;115;40;105;100;41;32;79;78;32;68;69;76;69;84;69;32;67;65;83;67;65;68;69;44;32;85;78;73;81;85;69;40;112;97;99;107;97;103;101;95;105;100;44;32;116;97;103;95;110;97;109;101;41;32;41]) (* create_schema#4: CREATE TABLE IF NOT EXISTS dist_tags ( id INTEGER PRIMARY KEY AUTOINCREMENT, package_id INTEGER NOT NULL, tag_name TEXT NOT NULL, version TEXT NOT NULL, FOREIGN KEY (package_id) REFERENCES packages(id) ON DELETE CASCADE, UNIQUE(package_id, tag_name) ) *);
-    ([99;114;101;97;116;101;95;115;99;104;101;109;97], 5, [67;82;69;65;84;69;32;73;78;68;69;88;32;73;70;32;78;79;84;32;69;88;73;83;84;83;32;105;100;120;95;100;105;115;116;95;116;97;103;115;95;112;97;99;107;97;103;101;95;105;100;32;79;78;32;100;105;115;116;95;116;97;103;115;40;112;97;99;107;97;103;101;95;105;100;41]) (* create_schema#5: CREATE INDEX IF NOT EXISTS idx_dist_tags_package_id ON dist_tags(package_id) *);
-    ([97;112;112;108;121;95;109;105;103;114;97;116;105;111;110;115], 0, [117;115;101;114;95;118;101;114;115;105;111;110]) (* apply_migrations#0: user_version *);
-    ([97;112;112;108;121;95;109;105;103;114;97;116;105;111;110;115], 1, [100;117;112;108;105;99;97;116;101;32;99;111;108;117;109;110;32;110;97;109;101]) (* apply_migrations#1: duplicate column name *);
-    ([97;112;112;108;121;95;109;105;103;114;97;116;105;111;110;115], 2, [117;115;101;114;95;118;101;114;115;105;111;110]) (* apply_migrations#2: user_version *);
-    ([103;101;116;95;118;101;114;115;105;111;110;115], 0, [83;69;76;69;67;84;32;118;46;118;101;114;115;105;111;110;32;70;82;79;77;32;118;101;114;115;105;111;110;115;32;118;32;74;79;73;78;32;112;97;99;107;97;103;101;115;32;112;32;79;78;32;118;46;112;97;99;107;97;103;101;95;105;100;32;61;32;112;46;105;100;32;87;72;69;82;69;32;112;46;114;101;103;105;115;116;114;121;95;116;121;112;101;32;61;32;63;49;32;65;78;68;32;112;46;112;97;99;107;97;103;101;95;110;97;109;101;32;61;32;63;50]) (* get_versions#0: SELECT v.version FROM versions v JOIN packages p ON v.package_id = p.id WHERE p.registry_type = ?1 AND p.package_name = ?2 *);
-    ([115;97;118;101;95;100;105;115;116;95;116;97;103;115], 0, [73;78;83;69;82;84;32;73;78;84;79;32;112;97;99;107;97;103;101;115;32;40;114;101;103;105;115;116;114;121;95;116;121;112;101;44;32;112;97;99;107;97;103;101;95;110;97;109;101;44;32;117;112;100;97;116;101;100;95;97;116;41;32;86;65;76;85;69;83;32;40;63;49;44;32;63;50;44;32;63;51;41;32;79;78;32;67;79;78;70;76;73;67;84;40;114;101;103;105;115;116;114;121;95;116;121;112;101;44;32;112;97;99;107;97;103;101;95;110;97;109;101;41;32;68;79;32;78;79;84;72;73;78;71]) (* save_dist_tags#0: INSERT INTO packages (registry_type, package_name, updated_at) VALUES (?1, ?2, ?3) ON CONFLICT(registry_type, package_name) DO NOTHING *);
-    ([115;97;118;101;95;100;105;115;116;95;116;97;103;115], 1, [83;69;76;69;67;84;32;105;100;32;70;82;79;77;32;112;97;99;107;97;103;101;115;32;87;72;69;82;69;32;114;101;103;105;115;116;114;121;95;116;121;112;101;32;61;32;63;49;32;65;78;68;32;112;97;99;107;97;103;101;95;110;97;109;101;32;61;32;63;50]) (* save_dist_tags#1: SELECT id FROM packages WHERE registry_type = ?1 AND package_name = ?2 *);
-    ([115;97;118;101;95;100;105;115;116;95;116;97;103;115], 2, [68;69;76;69;84;69;32;70;82;79;77;32;100;105;115;116;95;116;97;103;115;32;87;72;69;82;69;32;112;97;99;107;97;103;101;95;105;100;32;61;32;63;49]) (* save_dist_tags#2: DELETE FROM dist_tags WHERE package_id = ?1 *);
-    ([115;97;118;101;95;100;105;115;116;95;116;97;103;115], 3, [73;78;83;69;82;84;32;73;78;84;79;32;100;105;115;116;95;116;97;103;115;32;40;112;97;99;107;97;103;101;95;105;100;44;32;116;97;103;95;110;97;109;101;44;32;118;101;114;115;105;111;110;41;32;86;65;76;85;69;83;32;40;63;49;44;32;63;50;44;32;63;51;41]) (* save_dist_tags#3: INSERT INTO dist_tags (package_id, tag_name, version) VALUES (?1, ?2, ?3) *);
-    ([103;101;116;95;100;105;115;116;95;116;97;103], 0, [83;69;76;69;67;84;32;100;116;46;118;101;114;115;105;111;110;32;70;82;79;77;32;100;105;115;116;95;116;97;103;115;32;100;116;32;74;79;73;78;32;112;97;99;107;97;103;101;115;32;112;32;79;78;32;100;116;46;112;97;99;107;97;103;101;95;105;100;32;61;32;112;46;105;100;32;87;72;69;82;69;32;112;46;114;101;103;105;115;116;114;121;95;116;121;112;101;32;61;32;63;49;32;65;78;68;32;112;46;112;97;99;107;97;103;101;95;110;97;109;101;32;61;32;63;50;32;65;78;68;32;100;116;46;116;97;103;95;110;97;109;101;32;61;32;63;51]) (* get_dist_tag#0: SELECT dt.version FROM dist_tags dt JOIN packages p ON dt.package_id = p.id WHERE p.registry_type = ?1 AND p.package_name = ?2 AND dt.tag_name = ?3 *);
-    ([103;101;116;95;108;97;116;101;115;116;95;118;101;114;115;105;111;110], 0, [83;69;76;69;67;84;32;100;116;46;118;101;114;115;105;111;110;32;70;82;79;77;32;100;105;115;116;95;116;97;103;115;32;100;116;32;74;79;73;78;32;112;97;99;107;97;103;101;115;32;112;32;79;78;32;100;116;46;112;97;99;107;97;103;101;95;105;100;32;61;32;112;46;105;100;32;87;72;69;82;69;32;112;46;114;101;103;105;115;116;114;121;95;116;121;112;101;32;61;32;63;49;32;65;78;68;32;112;46;112;97;99;107;97;103;101;95;110;97;109;101;32;61;32;63;50;32;65;78;68;32;100;116;46;116;97;103;95;110;97;109;101;32;61;32;39;108;97;116;101;115;116;39]) (* get_latest_version#0: SELECT dt.version FROM dist_tags dt JOIN packages p ON dt.package_id = p.id WHERE p.registry_type = ?1 AND p.package_name = ?2 AND dt.tag_name = 'latest' *);
-    ([118;101;114;115;105;111;110;95;101;120;105;115;116;115], 0, [83;69;76;69;67;84;32;69;88;73;83;84;83;40;32;83;69;76;69;67;84;32;49;32;70;82;79;77;32;118;101;114;115;105;111;110;115;32;118;32;74;79;73;78;32;112;97;99;107;97;103;101;115;32;112;32;79;78;32;118;46;112;97;99;107;97;103;101;95;105;100;32;61;32;112;46;105;100;32;87;72;69;82;69;32;112;46;114;101;103;105;115;116;114;121;95;116;121;112;101;32;61;32;63;49;32;65;78;68;32;112;46;112;97;99;107;97;103;101;95;110;97;109;101;32;61;32;63;50;32;65;78;68;32;118;46;118;101;114;115;105;111;110;32;61;32;63;51;32;41]) (* version_exists#0: SELECT EXISTS( SELECT 1 FROM versions v JOIN packages p ON v.package_id = p.id WHERE p.registry_type = ?1 AND p.package_name = ?2 AND v.version = ?3 ) *);
-    ([114;101;112;108;97;99;101;95;118;101;114;115;105;111;110;115], 0, [73;78;83;69;82;84;32;73;78;84;79;32;112;97;99;107;97;103;101;115;32;40;114;101;103;105;115;116;114;121;95;116;121;112;101;44;32;112;97;99;107;97;103;101;95;110;97;109;101;44;32;117;112;100;97;116;101;100;95;97;116;41;32;86;65;76;85;69;83;32;40;63;49;44;32;63;50;44;32;63;51;41;32;79;78;32;67;79;78;70;76;73;67;84;40;114;101;103;105;115;116;114;121;95;116;121;112;101;44;32;112;97;99;107;97;103;101;95;110;97;109;101;41;32;68;79;32;85;80;68;65;84;69;32;83;69;84;32;117;112;100;97;116;101;100;95;97;116;32;61;32;101;120;99;108;117;100;101;100;46;117;112;100;97;116;101;100;95;97;116]) (* replace_versions#0: INSERT INTO packages (registry_type, package_name, updated_at) VALUES (?1, ?2, ?3) ON CONFLICT(registry_type, package_name) DO UPDATE SET updated_at = excluded.updated_at *);
-    ([114;101;112;108;97;99;101;95;118;101;114;115;105;111;110;115], 1, [83;69;76;69;67;84;32;105;100;32;70;82;79;77;32;112;97;99;107;97;103;101;115;32;87;72;69;82;69;32;114;101;103;105;115;116;114;121;95;116;121;112;101;32;61;32;63;49;32;65;78;68;32;112;97;99;107;97;103;101;95;110;97;109;101;32;61;32;63;50]) (* replace_versions#1: SELECT id FROM packages WHERE registry_type = ?1 AND package_name = ?2 *);
-    ([114;101;112;108;97;99;101;95;118;101;114;115;105;111;110;115], 2, [73;78;83;69;82;84;32;79;82;32;73;71;78;79;82;69;32;73;78;84;79;32;118;101;114;115;105;111;110;115;32;40;112;97;99;107;97;103;101;95;105;100;44;32;118;101;114;115;105;111;110;41;32;86;65;76;85;69;83;32;40;63;49;44;32;63;50;41]) (* replace_versions#2: INSERT OR IGNORE INTO versions (package_id, version) VALUES (?1, ?2) *);
-    ([103;101;116;95;112;97;99;107;97;103;101;115;95;110;101;101;100;105;110;103;95;114;101;102;114;101;115;104], 0, [83;69;76;69;67;84;32;114;101;103;105;115;116;114;121;95;116;121;112;101;44;32;112;97;99;107;97;103;101;95;110;97;109;101;32;70;82;79;77;32;112;97;99;107;97;103;101;115;32;87;72;69;82;69;32;117;112;100;97;116;101;100;95;97;116;32;60;32;63;49;32;65;78;68;32;110;111;116;95;102;111;117;110;100;32;61;32;48]) (* get_packages_needing_refresh#0: SELECT registry_type, package_name FROM packages WHERE updated_at < ?1 AND not_found = 0 *);
-    ([116;114;121;95;115;116;97;114;116;95;102;101;116;99;104], 0, [85;80;68;65;84;69;32;112;97;99;107;97;103;101;115;32;83;69;84;32;102;101;116;99;104;105;110;103;95;115;105;110;99;101;32;61;32;63;49;32;87;72;69;82;69;32;114;101;103;105;115;116;114;121;95;116;121;112;101;32;61;32;63;50;32;65;78;68;32;112;97;99;107;97;103;101;95;110;97;109;101;32;61;32;63;51;32;65;78;68;32;40;102;101;116;99;104;105;110;103;95;115;105;110;99;101;32;73;83;32;78;85;76;76;32;79;82;32;102;101;116;99;104;105;110;103;95;115;105;110;99;101;32;60;32;63;52;41]) (* try_start_fetch#0: UPDATE packages SET fetching_since = ?1 WHERE registry_type = ?2 AND package_name = ?3 AND (fetching_since IS NULL OR fetching_since < ?4) *);
-    ([116;114;121;95;115;116;97;114;116;95;102;101;116;99;104], 1, [73;78;83;69;82;84;32;79;82;32;73;71;78;79;82;69;32;73;78;84;79;32;112;97;99;107;97;103;101;115;32;40;114;101;103;105;115;116;114;121;95;116;121;112;101;44;32;112;97;99;107;97;103;101;95;110;97;109;101;44;32;117;112;100;97;116;101;100;95;97;116;44;32;102;101;116;99;104;105;110;103;95;115;105;110;99;101;41;32;86;65;76;85;69;83;32;40;63;49;44;32;63;50;44;32;63;51;44;32;63;52;41]) (* try_start_fetch#1: INSERT OR IGNORE INTO packages (registry_type, package_name, updated_at, fetching_since) VALUES (?1, ?2, ?3, ?4) *);
-    ([102;105;110;105;115;104;95;102;101;116;99;104], 0, [85;80;68;65;84;69;32;112;97;99;107;97;103;101;115;32;83;69;84;32;102;101;116;99;104;105;110;103;95;115;105;110;99;101;32;61;32;78;85;76;76;32;87;72;69;82;69;32;114;101;103;105;115;116;114;121;95;116;121;112;101;32;61;32;63;49;32;65;78;68;32;112;97;99;107;97;103;101;95;110;97;109;101;32;61;32;63;50]) (* finish_fetch#0: UPDATE packages SET fetching_since = NULL WHERE registry_type = ?1 AND package_name = ?2 *);
-    ([102;105;108;116;101;114;95;112;97;99;107;97;103;101;115;95;110;111;116;95;105;110;95;99;97;99;104;101], 0, [83;69;76;69;67;84;32;112;46;112;97;99;107;97;103;101;95;110;97;109;101;32;70;82;79;77;32;112;97;99;107;97;103;101;115;32;112;32;87;72;69;82;69;32;112;46;114;101;103;105;115;116;114;121;95;116;121;112;101;32;61;32;63;49;32;65;78;68;32;112;46;112;97;99;107;97;103;101;95;110;97;109;101;32;73;78;32;40;123;125;41;32;65;78;68;32;40;69;88;73;83;84;83;32;40;83;69;76;69;67;84;32;49;32;70;82;79;77;32;118;101;114;115;105;111;110;115;32;118;32;87;72;69;82;69;32;118;46;112;97;99;107;97;103;101;95;105;100;32;61;32;112;46;105;100;41;32;79;82;32;112;46;110;111;116;95;102;111;117;110;100;32;61;32;49;41]) (* filter_packages_not_in_cache#0: SELECT p.package_name FROM packages p WHERE p.registry_type = ?1 AND p.package_name IN ({}) AND (EXISTS (SELECT 1 FROM versions v WHERE v.package_id = p.id) OR p.not_found = 1) *);
-    ([109;97;114;107;95;110;111;116;95;102;111;117;110;100], 0, [85;80;68;65;84;69;32;112;97;99;107;97;103;101;115;32;83;69;84;32;110;111;116;95;102;111;117;110;100;32;61;32;49;32;87;72;69;82;69;32;114;101;103;105;115;116;114;121;95;116;121;112;101;32;61;32;63;49;32;65;78;68;32;112;97;99;107;97;103;101;95;110;97;109;101;32;61;32;63;50]) (* mark_not_found#0: UPDATE packages SET not_found = 1 WHERE registry_type = ?1 AND package_name = ?2 *) ].
-
-(* order of database calls per write method: 0 begin, 1 commit, 2 write in tx, 3 autocommit write, 4 read *)
-Definition stmt_order : list (bytes * list N) :=
-  [ ([114;101;112;108;97;99;101;95;118;101;114;115;105;111;110;115], [0; 2; 4; 2; 1]) (* replace_versions *);
-    ([115;97;118;101;95;100;105;115;116;95;116;97;103;115], [0; 2; 4; 2; 2; 1]) (* save_dist_tags *);
-    ([116;114;121;95;115;116;97;114;116;95;102;101;116;99;104], [3; 3]) (* try_start_fetch *);
-    ([102;105;110;105;115;104;95;102;101;116;99;104], [3]) (* finish_fetch *);
-    ([109;97;114;107;95;110;111;116;95;102;111;117;110;100], [3]) (* mark_not_found *);
-    ([99;114;101;97;116;101;95;115;99;104;101;109;97], [3; 3; 3; 3; 3; 3]) (* create_schema *);
-    ([97;112;112;108;121;95;109;105;103;114;97;116;105;111;110;115], [4; 3; 3]) (* apply_migrations *) ].
-
-(* functions that bracket their statements in a transaction: (function, #transaction(), #commit()) *)
-Definition tx_brackets : list (bytes * N * N) :=
-  [ ([115;97;118;101;95;100;105;115;116;95;116;97;103;115], 1, 1) (* save_dist_tags *);
-    ([114;101;112;108;97;99;101;95;118;101;114;115;105;111;110;115], 1, 1) (* replace_versions *) ].
+(* translator section cache FAILED: replace_versions: execute on unknown statement stmt *)
+Definition translator_failed_cache : True := I.
